@@ -20,11 +20,14 @@ wire mapper: "lower" | "camel" | {"d": [[key, val]]}, val = str | {"dns": true} 
 attr = mapper | {"list": [mapper]}
 instance tree = {field: int | tree | [tree]}  (absent optional fields are missing)
 """
+import itertools
 import json
 
 from typedpy import Structure, Integer, Array, Set, Serializer, Deserializer, mappers, serialize, deserialize_structure
 from typedpy.structures import StructMeta
 from typedpy.serialization.mappers import DoNotSerialize
+import sys as _sys
+_mappers_module = _sys.modules["typedpy.serialization.mappers"]
 
 NAMES = ["a_b1", "x", "aB", "first_name", "a", "b", "c", "a_b", "n", "m", "q_r", "X", "b1", "firstName",
          "A", "k", "n_1", "abc", "a_bC", "first_Name", "a_b1c", "x_2y"]
@@ -36,7 +39,23 @@ _counter = [0]
 # ------------------------------------------------------------------ generation
 
 def all_fields(cd):
-    return [f for lv in cd["levels"] for f in lv["fields"]]
+    fs = [f for lv in cd["levels"] for f in lv["fields"]]
+    if "field_order" in cd:      # several bases: the order typedpy's own MRO merge gives (taken from the real class)
+        by = {f["n"]: f for f in fs}
+        return [by[n] for n in cd["field_order"]]
+    return fs
+
+
+def level_names(cd):
+    return [lv.get("name") or f"{cd['name']}_{li}" for li, lv in enumerate(cd["levels"])]
+
+
+def level_bases(cd, li):
+    """names of the Structure bases of level li (a plain hierarchy is a chain)"""
+    lv = cd["levels"][li]
+    if "bases" in lv:
+        return lv["bases"]
+    return [level_names(cd)[li - 1]] if li > 0 else []
 
 
 def gen_dict_mapper(rng, fields, allow_dns=True, allow_nested=True, depth=0):
@@ -257,6 +276,124 @@ def closed_cases(rng, n):
     return out
 
 
+def ku_cases(rng, n):
+    """stream: explicit keep_undefined=True / False to Deserializer.deserialize, on open and closed trees
+    (with True on an open class every renamed key is kept as an extra attribute, by design: compared with
+    the model, never judged for round trip)"""
+    out = []
+    for _ in range(n):
+        cd = gen_class(rng, 0, 2, rng.choice([0, 1, 1, 2]))
+        if rng.random() < 0.4:
+            for c in all_cds(cd):
+                if rng.random() < 0.5:
+                    c["levels"][rng.randrange(len(c["levels"]))]["addl"] = rng.choice(["new", "old"])
+        for ku in (True, False):
+            out.append({"cls": cd, "kw": gen_instance(rng, cd, 0.3), "camel": rng.random() < 0.25,
+                        "strict": rng.random() < 0.3, "explicit": gen_explicit(rng, cd) if rng.random() < 0.15 else None,
+                        "doc2": rng.random() < 0.3, "ku": ku})
+    return out
+
+
+def des_cases(rng, n):
+    """stream: classes that also define _deserialization_mapper — a copy of the serialization mapper (the
+    round trip is still demanded) or a different one (compared with the model only)"""
+    out = []
+    for _ in range(n):
+        cd = gen_class(rng, 0, 3, rng.choice([0, 1, 1, 2]))
+        same = rng.random() < 0.5
+        marked = False
+        for c in all_cds(cd):
+            sofar = []
+            for lv in c["levels"]:
+                sofar = sofar + lv["fields"]
+                if sofar and rng.random() < (0.7 if c is cd else 0.3):
+                    lv["des"] = lv["mapper"] if (same and lv["mapper"] is not None) else gen_attr(rng, sofar)
+                    marked = marked or lv["des"] is not None
+        if not marked:
+            lv = cd["levels"][-1]
+            lv["des"] = lv["mapper"] if (same and lv["mapper"] is not None) else gen_mapper(rng, all_fields(cd))
+        for _ in range(2):
+            out.append({"cls": cd, "kw": gen_instance(rng, cd, rng.choice([0.2, 0.6])),
+                        "camel": rng.random() < 0.3, "strict": rng.random() < 0.3, "explicit": None,
+                        "doc2": rng.random() < 0.3})
+    return out
+
+
+def des_differs(cd):
+    """some class of the tree defines a _deserialization_mapper that is not a copy of its serialization mapper"""
+    return any(lv.get("des") is not None and lv["des"] != lv["mapper"] for lv in cd["levels"]) or any(
+        des_differs(f["cls"]) for f in all_fields(cd) if f["kind"] != "int")
+
+
+def gen_mi_class(rng, depth=0):
+    """a class with several bases (diamonds included): 3-5 class statements, each with 0-2 fields and its
+    own mapper attribute; the field order and the required set are taken from the real class"""
+    for _attempt in range(20):
+        _counter[0] += 1
+        name = f"M{_counter[0]}"
+        pool = NAMES[:]
+        rng.shuffle(pool)
+        levels = []
+        sofar = []
+        n_nodes = rng.randint(3, 5)
+        for i in range(n_nodes):
+            if i == 0 or (i < n_nodes - 1 and rng.random() < 0.3):
+                bases = []
+            else:
+                k = 2 if (i >= 2 and rng.random() < 0.7) else 1
+                bases = rng.sample([lv["name"] for lv in levels], min(k, len(levels)))
+            fields = []
+            for _ in range(rng.randint(0, 2) if i else rng.randint(1, 2)):
+                if not pool:
+                    break
+                kind = "int"
+                if depth == 0 and rng.random() < 0.25:
+                    kind = rng.choice(["one", "arr"])
+                fd = {"n": pool.pop(), "opt": rng.random() < 0.4, "kind": kind}
+                if kind != "int":
+                    fd["cls"] = gen_class(rng, 1, 2, 1)
+                fields.append(fd)
+            sofar = sofar + fields
+            lv = {"name": f"{name}_{i}", "bases": bases, "mapper": gen_attr(rng, sofar) if sofar else None,
+                  "fields": fields}
+            levels.append(lv)
+        # the last statement is the class under test: make it derive from at least two statements if possible
+        if len(levels[-1]["bases"]) < 2 and len(levels) >= 3:
+            levels[-1]["bases"] = rng.sample([lv["name"] for lv in levels[:-1]], 2)
+        cd = {"name": name, "levels": levels}
+        try:
+            cls = build_class(cd, {})
+        except TypeError:
+            continue          # no consistent linearisation: draw again
+        order = list(cls.get_all_fields_by_name().keys())
+        declared = {f["n"]: f for lv in levels for f in lv["fields"]}
+        if not order or set(order) - set(declared):
+            continue
+        # statements that are not among the ancestors of the class under test contribute nothing
+        cd["field_order"] = order
+        req = set(getattr(cls, "_required", order))
+        for lv in levels:
+            lv["fields"] = [f for f in lv["fields"] if f["n"] in order]
+            for f in lv["fields"]:
+                f["opt"] = f["n"] not in req
+        return cd
+    return gen_class(rng, depth, 3, 1)
+
+
+def mi_cases(rng, n):
+    """stream: multiple inheritance — the order in which _serialization_mapper attributes are collected
+    (reversed C3 linearisation, getattr per class) decides the aggregate"""
+    out = []
+    for _ in range(n):
+        cd = gen_mi_class(rng)
+        for _ in range(2):
+            out.append({"cls": cd, "kw": gen_instance(rng, cd, rng.choice([0.2, 0.6])),
+                        "camel": rng.random() < 0.3, "strict": rng.random() < 0.3,
+                        "explicit": gen_explicit(rng, cd) if rng.random() < 0.1 else None,
+                        "doc2": rng.random() < 0.3})
+    return out
+
+
 def gen_cases(rng, tier, n):
     cases = []
     for i in range(n):
@@ -273,7 +410,8 @@ def gen_cases(rng, tier, n):
                 if rng.random() < 0.15:
                     case["entry"] = "function"
                 cases.append(case)
-    return cases + history_cases(rng, max(20, n // 25)) + closed_cases(rng, max(40, n // 8)) + fixed_cases()
+    return (cases + history_cases(rng, max(20, n // 25)) + closed_cases(rng, max(40, n // 8)) + fixed_cases()
+            + map_cases(rng, max(40, n // 10)) + ku_cases(rng, max(30, n // 16)) + des_cases(rng, max(40, n // 12)) + mi_cases(rng, max(60, n // 8)))
 
 
 def _flat(name, fields, mapper, opt=()):
@@ -325,6 +463,21 @@ def to_py_dict(entries):
     return out
 
 
+def mapper_to_wire(m):
+    """a resolved (aggregated) mapper dict of the real code -> wire dict"""
+    out = []
+    for k, v in m.items():
+        if isinstance(v, str):
+            out.append([k, v])
+        elif v is DoNotSerialize:
+            out.append([k, {"dns": True}])
+        elif isinstance(v, dict):
+            out.append([k, mapper_to_wire(v)])
+        else:
+            out.append([k, {"other": repr(v)[:60]}])
+    return {"d": out}
+
+
 def to_py_attr(a):
     if isinstance(a, dict) and "list" in a:
         return [to_py_mapper(m) for m in a["list"]]
@@ -333,9 +486,11 @@ def to_py_attr(a):
 
 def build_class(cd, registry):
     """build the hierarchy of `cd` with real typedpy; returns the most derived class"""
-    base = Structure
     cls = None
+    names = level_names(cd)
+    local = {}
     for li, lv in enumerate(cd["levels"]):
+        bases = tuple(local[b] for b in level_bases(cd, li)) or (Structure,)
         ns = {}
         for f in lv["fields"]:
             if f["kind"] == "int":
@@ -348,8 +503,10 @@ def build_class(cd, registry):
             ns["_additional_properties" if lv["addl"] == "new" else "_additionalProperties"] = False
         if lv["mapper"] is not None:
             ns["_serialization_mapper"] = to_py_attr(lv["mapper"])
-        cls = StructMeta(f"{cd['name']}_{li}", (base,), ns)
-        base = cls
+        if lv.get("des") is not None:
+            ns["_deserialization_mapper"] = to_py_attr(lv["des"])
+        cls = StructMeta(names[li], bases, ns)
+        local[names[li]] = cls
     registry[cd["name"]] = cls
     return cls
 
@@ -422,6 +579,24 @@ def find_extras(x, cd, path=""):
             continue
         for i, e in enumerate([v] if f["kind"] == "one" else list(v)):
             out += find_extras(e, f["cls"], f"{path}{k}.")
+    return out
+
+
+def model_extras(tree, cd, path=""):
+    """keys of the model's deserialized tree that are not declared fields (undefined keys kept)"""
+    by_name = {f["n"]: f for f in all_fields(cd)}
+    out = []
+    if not (isinstance(tree, dict) and "o" in tree):
+        return out
+    for k, v in tree["o"]:
+        if k not in by_name:
+            out.append(path + k)
+            continue
+        f = by_name[k]
+        if v is None or f["kind"] == "int":
+            continue
+        for e in ([v] if f["kind"] == "one" else list(v)):
+            out += model_extras(e, f["cls"], f"{path}{k}.")
     return out
 
 
@@ -503,11 +678,16 @@ def find_cd(cd, name):
 
 
 def run_impl(case):
+    if case.get("oracle") == "map":
+        return run_map(case)
     cd = case["cls"]
     registry = {}
     cls = build_class(cd, registry)
     order = list(cls.get_all_fields_by_name().keys())
-    if order != [f["n"] for f in all_fields(cd)]:
+    if "field_order" in cd:
+        if order != cd["field_order"]:
+            raise RuntimeError(f"field order {order} changed since generation {cd['field_order']}")
+    elif order != [f["n"] for f in all_fields(cd)]:
         raise RuntimeError(f"field order {order}")
     required = set(getattr(cls, "_required"))
     if required != {f["n"] for f in all_fields(cd) if not f["opt"]}:
@@ -547,8 +727,15 @@ def run_call(cd, registry, case):
     doc = None
     if ser_w is not None:
         try:
+            real_cache = _mappers_module.aggregated_mapper_by_class
+            n0 = len(real_cache)
             doc = ser_w.serialize(camel_case_convert=camel)
             out["doc"] = doc_to_wire(doc)
+            names = {c: n for n, c in registry.items()}
+            # the dict keeps insertion order and entries are never removed: the new ones are the last ones
+            fresh = list(itertools.islice(reversed(real_cache.items()), len(real_cache) - n0))[::-1]
+            out["cache_new"] = [[names.get(k[0], getattr(k[0], "__name__", "?")), "ov" if k[1] else "", bool(k[2]),
+                                 mapper_to_wire(v)] for k, v in fresh]
             doc_f = serialize(x, mapper=explicit, camel_case_convert=camel)
             if doc_f != doc:
                 out["ser_paths_differ"] = [doc, doc_f]
@@ -561,7 +748,10 @@ def run_call(cd, registry, case):
             fkw["mapper"] = explicit
         run = lambda d: deserialize_structure(cls, d, **fkw)
     else:
-        run = (lambda d: des_w.deserialize(d)) if des_w is not None else None
+        if case.get("ku") is None:
+            run = (lambda d: des_w.deserialize(d)) if des_w is not None else None
+        else:
+            run = (lambda d: des_w.deserialize(d, keep_undefined=case["ku"])) if des_w is not None else None
     if run is not None and doc is not None:
         out["deser"] = _deser(run, doc, cd, x)
     if run is not None and case.get("doc2"):
@@ -593,7 +783,10 @@ def cls_to_wire(cd):
             w["shape"] = "one" if f["kind"] == "one" else "many"
             w["cls"] = cls_to_wire(f["cls"])
         fields.append(w)
-    return {"hier": [lv["mapper"] for lv in cd["levels"]], "fields": fields}
+    names = level_names(cd)
+    graph = [{"name": names[li], "bases": level_bases(cd, li), "ser": lv["mapper"], "des": lv.get("des"),
+              "closed": bool(lv.get("addl"))} for li, lv in enumerate(cd["levels"])]
+    return {"graph": graph, "top": names[-1], "fields": fields, "cid": cd["name"]}
 
 
 def call_wire(cd, call, impl):
@@ -602,10 +795,22 @@ def call_wire(cd, call, impl):
          "inst_canon": impl.get("inst_canon", {"o": []})}
     if "doc2" in impl:
         l["doc2"] = impl["doc2"]
+    ku = call_ku(call)
+    if ku is not None:
+        l["ku"] = ku
     return l
 
 
+def call_ku(call):
+    """keep_undefined as it reaches deserialize_structure: None = Deserializer's default"""
+    if call.get("entry") == "function":
+        return False
+    return call.get("ku")
+
+
 def line(case, impl):
+    if case.get("oracle"):
+        return None          # oracle-only: no model counterpart
     l = call_wire(case["cls"], case, impl)
     l["suite"] = "mapper"
     pre = case.get("pre") or []
@@ -642,11 +847,26 @@ def mapper_kinds(cd, acc):
 
 
 def tags(case, impl, model):
+    if case.get("oracle") == "map":
+        r = impl.get("deser", {})
+        return ["stream=map-values(oracle-only)", f"camel={case['camel']}", "holder=" + case["spec"]["holder"],
+                "map-value-roundtrip=" + ("equal" if r.get("equal") and not r.get("extras") else
+                                          "extras" if r.get("extras") else "different")]
     t = [f"depth={class_depth(case['cls'])}", f"hier={len(case['cls']['levels'])}",
          f"camel={case['camel']}", f"strict={case['strict']}",
          "explicit=" + ("none" if case["explicit"] is None else "yes")]
     t += ["mapper:" + k for k in sorted(mapper_kinds(case["cls"], set()))]
     t.append("entry=" + case.get("entry", "Deserializer"))
+    t.append("keep_undefined=" + str(call_ku(case)))
+    mo = (model or {}).get("out") if model else None
+    if mo and "cacheNew" in mo and "cache_new" in impl:
+        same = [e[:3] for e in mo["cacheNew"]] == [e[:3] for e in impl["cache_new"]]
+        t.append("cache-keys-filed=" + ("as-modelled" if same else "differ"))
+        t.append(f"cache-entries-filed={min(len(impl['cache_new']), 4)}")
+    if any("bases" in lv for lv in case["cls"]["levels"]):
+        t.append("multiple-inheritance")
+    if any(lv.get("des") is not None for c in all_cds(case["cls"]) for lv in c["levels"]):
+        t.append("deserialization-mapper:" + ("different" if des_differs(case["cls"]) else "copy"))
     if closed(case["cls"]):
         t.append("closed-class-in-tree")
     pre = case.get("pre") or []
@@ -668,15 +888,33 @@ def tags(case, impl, model):
     if out and "hyp" in out:
         t.append("hyp.rt=" + str(out["hyp"]["rt"]))
         t.append("hyp.dom=" + str(out["hyp"]["dom"]))
+        if "region" in out["hyp"]:
+            t.append("hyp.region=" + str(out["hyp"]["region"]))
+            h = out["hyp"]
+            if h.get("domE") and class_depth(case["cls"]) >= 2:
+                t.append("nested,in-domain: " + ("Sync holds" if h.get("rtNoKu") else "Sync fails") + ", "
+                         + ("inside region" if h["region"] else "outside region"))
+                if not h["region"]:
+                    t.append(("Sync holds" if h.get("rtNoKu") else "Sync fails") + " outside region because: "
+                             + h.get("regionWhy", "?"))
+            if class_depth(case["cls"]) >= 2:
+                t.append(f"nested-class-tree:region={out['hyp']['region']}")
+            if class_depth(case["cls"]) >= 3:
+                t.append(f"depth>=3:region={out['hyp']['region']}")
     return t
 
 
 def nontrivial(case):
+    if case.get("oracle"):
+        return True
     return bool(mapper_kinds(case["cls"], set()) - {"nested:one", "nested:arr", "nested:set"}) or case["camel"] \
         or case["explicit"] is not None or bool(case.get("pre"))
 
 
 def describe(case, impl, model):
+    if case.get("oracle"):
+        return {"stream": "map-values (oracle-only)", "spec": case["spec"], "camel": case["camel"],
+                "real_document": impl.get("doc"), "real_deserialized": impl.get("deser")}
     return {"class": case["cls"], "kw": case["kw"], "camel": case["camel"], "strict": case["strict"],
             "explicit": case["explicit"], "history": case.get("pre") or [], "real_document": wire_to_py(impl["doc"]) if "doc" in impl else None,
             "real_deserialized": impl.get("deser"), "model_hypotheses": (model or {}).get("hyp")}
@@ -711,18 +949,172 @@ def correspondence(cd, impl, model):
         return ("serialized document differs: real " + json.dumps(real_doc)[:400] + " model "
                 + json.dumps(model_doc)[:400])
     for key in ("deser", "deser2"):
-        if key not in impl or closed(cd):
+        if key not in impl:
             continue
         r, m = impl[key], model.get(key)
-        if "extras" in r:
-            return f"{key}: real instance has undeclared attributes {r['extras']} (undefined keys kept)"
         if m is None:
             return f"model has no {key}"
         if ("ok" in r) != ("ok" in m):
             return (f"{key}: real {json.dumps(r)[:300]} model {json.dumps(m)[:300]}")
+        if "ok" in r and sorted(r.get("extras", [])) != sorted(model_extras(m["ok"], cd)):
+            return (f"{key}: undefined keys kept as attributes: real {sorted(r.get('extras', []))} model "
+                    f"{sorted(model_extras(m['ok'], cd))}")
         if "ok" in r and canon_inst(r["ok"], cd) != canon_inst(m["ok"], cd):
             return (f"{key} instance differs: real {json.dumps(canon_inst(r['ok'], cd))[:300]} model "
                     f"{json.dumps(canon_inst(m['ok'], cd))[:300]}")
+    # the cache invariant (CacheOK): an entry the real code filed under a key the model files too must hold the
+    # model's aggregate for that key — a wrong value is handed to every later call with that key.  WHICH keys
+    # get filed is the code's business (a different caching strategy is not a violation): only tagged.
+    if "cache_new" in impl and "cacheNew" in model:
+        mine = {(e[0], e[1], e[2]): e[3] for e in model["cacheNew"]}
+        for e in impl["cache_new"]:
+            k = (e[0], e[1], e[2])
+            if k in mine and mine[k] != e[3]:
+                return (f"aggregated_mapper_by_class[{k}] filed by this call is not the aggregate of that class / "
+                        "override / flag: real " + json.dumps(e[3])[:400] + " model " + json.dumps(mine[k])[:400])
     if not model["keysLaw"]:
         return "model's own document does not satisfy keysLaw (theorem ser_keys_eq_image contradicted?)"
     return None
+
+# ------------------------------------------------------------------ oracle-only stream: structures as Map values
+# (no Lean counterpart: a structure stored as a Map value is serialized / deserialized as a call of its own —
+#  own mappers only, nothing from the containing class passes through; the model has no Map shape)
+
+SAFE_NAMES = ["a_b", "c_d", "e_f", "g", "h_i", "j_k_l", "m", "n_o"]
+
+
+def _safe_mapper(rng, names):
+    r = rng.random()
+    if r < 0.25:
+        return None
+    if r < 0.45:
+        return "lower"
+    if r < 0.65:
+        return "camel"
+    chosen = rng.sample(names, rng.randint(1, len(names)))
+    return {"d": [[n, f"K{i}_{n.replace('_', '')}"] for i, n in enumerate(chosen)]}
+
+
+def map_cases(rng, n):
+    out = []
+    for _ in range(n):
+        pool = SAFE_NAMES[:]
+        rng.shuffle(pool)
+        wn = [pool.pop() for _ in range(rng.randint(1, 2))]
+        vn = [pool.pop() for _ in range(rng.randint(1, 2))]
+        nest = rng.choice([None, None, "one", "arr"])
+        spec = {"w": {"fields": wn, "mapper": _safe_mapper(rng, wn)} if nest else None, "nest": nest,
+                "nest_field": pool.pop() if nest else None,
+                "v": {"fields": vn, "mapper": None}, "outer_mapper": rng.choice([None, "lower", "camel", {"d": [["z_z", "ZZ1"]]}]),
+                "holder": rng.choice(["map", "map", "array_of_map"]),
+                "keys": rng.sample(["k_a", "kB", "x", "A_b"], rng.randint(1, 2))}
+        spec["v"]["mapper"] = _safe_mapper(rng, vn + ([spec["nest_field"]] if nest else []))
+        for camel in (False, True) if rng.random() < 0.4 else (False,):
+            out.append({"oracle": "map", "spec": spec, "camel": camel, "strict": rng.random() < 0.3,
+                        "vals": [rng.choice([0, 1, 2, 5, 7]) for _ in range(12)]})
+    return out
+
+
+def _safe_key(mappers_list, camel, name):
+    """key of `name` under a list of safe mappers (then camel_case_convert)"""
+    from typedpy.serialization.mappers import _convert_to_camelcase
+    cur = name
+    for m in mappers_list + (["camel"] if camel else []):
+        if m == "lower":
+            cur = cur.upper()
+        elif m == "camel":
+            cur = _convert_to_camelcase(cur)
+        elif m is not None:
+            cur = dict(m["d"]).get(cur, cur)
+    return cur
+
+
+def run_map(case):
+    from typedpy import Map, String
+    spec, camel = case["spec"], case["camel"]
+    vals = iter(case["vals"] * 4)
+
+    def mk(name, fields, mapper, extra=None):
+        ns = {f: Integer for f in fields}
+        ns.update(extra or {})
+        if mapper is not None:
+            ns["_serialization_mapper"] = to_py_mapper(mapper)
+        _counter[0] += 1
+        return StructMeta(f"{name}{_counter[0]}", (Structure,), ns)
+
+    W = mk("W", spec["w"]["fields"], spec["w"]["mapper"]) if spec["nest"] else None
+    extra = {}
+    if spec["nest"]:
+        extra[spec["nest_field"]] = W if spec["nest"] == "one" else Array[W]
+    V = mk("V", spec["v"]["fields"], spec["v"]["mapper"], extra)
+    holder = Map[String, V] if spec["holder"] == "map" else Array[Map[String, V]]
+    O = mk("O", ["z_z"], spec["outer_mapper"], {"m": holder})
+
+    def w_inst():
+        return W(**{f: next(vals) for f in spec["w"]["fields"]})
+
+    def v_inst():
+        kw = {f: next(vals) for f in spec["v"]["fields"]}
+        if spec["nest"]:
+            kw[spec["nest_field"]] = w_inst() if spec["nest"] == "one" else [w_inst(), w_inst()]
+        return V(**kw)
+
+    the_map = {k: v_inst() for k in spec["keys"]}
+    o = O(z_z=next(vals), m=the_map if spec["holder"] == "map" else [the_map])
+    out = {}
+    try:
+        doc = Serializer(o).serialize(camel_case_convert=camel)
+        out["doc"] = doc
+    except Exception as e:
+        out["ser_err"] = err_name(e)
+        out["ser_msg"] = str(e)[:300]
+        return out
+    # the specified document: map keys untouched, every value written as a call of its own
+    v_list = [spec["v"]["mapper"]]
+    w_list = ([spec["w"]["mapper"]] if spec["nest"] else []) + [m for m in v_list if m in ("lower", "camel")]
+
+    def w_doc(w):
+        return {_safe_key(w_list, camel, f): getattr(w, f) for f in spec["w"]["fields"]}
+
+    def v_doc(v):
+        d = {_safe_key(v_list, camel, f): getattr(v, f) for f in spec["v"]["fields"]}
+        if spec["nest"]:
+            x = getattr(v, spec["nest_field"])
+            d[_safe_key(v_list, camel, spec["nest_field"])] = w_doc(x) if spec["nest"] == "one" else [w_doc(e) for e in x]
+        return d
+
+    m_doc = {k: v_doc(v) for k, v in the_map.items()}
+    out["spec_doc"] = {_safe_key([spec["outer_mapper"]], camel, "z_z"): o.z_z,
+                       _safe_key([spec["outer_mapper"]], camel, "m"): m_doc if spec["holder"] == "map" else [m_doc]}
+    try:
+        y = Deserializer(O, camel_case_convert=camel, use_strict_mapping=case["strict"]).deserialize(doc)
+    except Exception as e:
+        out["deser"] = {"err": err_name(e), "msg": str(e)[:300]}
+        return out
+    extras = []
+    maps = [y.m] if spec["holder"] == "map" else list(y.m)
+    for mp in maps:
+        for k, v in mp.items():
+            allowed = set(spec["v"]["fields"]) | ({spec["nest_field"]} if spec["nest"] else set())
+            extras += [f"m[{k}].{a}" for a in v.__dict__ if a not in INTERNAL and a not in allowed]
+    out["deser"] = {"ok": True, "equal": bool(y == o), "extras": extras}
+    return out
+
+
+def judge_map(case, impl):
+    fails = []
+    desc = json.dumps(case["spec"])[:400] + f" camel_case_convert={case['camel']}"
+    if "ser_err" in impl:
+        return None, [(f"serialize-raises:{impl['ser_err']}", f"map-value stream: {impl.get('ser_msg')} for {desc}")]
+    if impl["doc"] != impl["spec_doc"]:
+        fails.append(("keyset-law:map-value", "a structure stored as a Map value is not written under its own class's "
+                      "keys: real " + json.dumps(impl["doc"])[:300] + " specified " + json.dumps(impl["spec_doc"])[:300]
+                      + " for " + desc))
+    r = impl.get("deser", {})
+    if not (r.get("ok") and r.get("equal") and not r.get("extras")):
+        key = "roundtrip:map-value:unexplained"
+        if r.get("extras"):
+            key = "keep-undefined-leak:deserialize_map"
+        fails.append((key, "deserialize(serialize(x)) != x for a class holding structures as Map values: document "
+                      + json.dumps(impl["doc"])[:300] + " gave " + json.dumps(r)[:300] + " for " + desc))
+    return None, fails
